@@ -108,14 +108,14 @@ static void make_gt(tsnpd_net *g, char letter, int ports, int nfreq,
 /* ---- respelling dimensions ----------------------------------------- */
 
 enum { D_UNIT, D_ENC, D_MATFMT, D_ORDER, D_CASE, D_COMMENTS, D_BLANK,
-    D_SPACE, D_LINEBREAK, D_OPTION, D_NOISE, D_REF, D_KWORDER, D_KWBLOCK,
-    TS_NDIM };
+    D_SPACE, D_LINEBREAK, D_OPTION, D_NOISE, D_REF, D_KWORDER, D_INTZERO,
+    D_KWBLOCK, TS_NDIM };
 static const int ts_dimsize[TS_NDIM] = { 4, 3, 4, 2, 4, 4, 3, 3, 4, 384, 2,
-    3, 3, 4 * 2 * 3 * 2 * 3 };
+    3, 3, 2, 4 * 2 * 3 * 2 * 3 };
 static const char *ts_dimname[TS_NDIM] = { "unit", "encoding", "matrix-format",
     "two-port-order", "letter-case", "comments", "blank-lines", "spacing",
     "line-breaks", "option-line", "noise-block", "reference", "keyword-order",
-    "keyword-block" };
+    "leading-zero-counts", "keyword-block" };
 
 static void ts_apply(tsnpd_spell *s, int dim, int v)
 {
@@ -133,6 +133,7 @@ static void ts_apply(tsnpd_spell *s, int dim, int v)
     case D_NOISE: s->noise = v; break;
     case D_REF: s->refstyle = v; break;
     case D_KWORDER: s->kworder = v; break;
+    case D_INTZERO: s->intzero = v; break;
     case D_KWBLOCK:
 	/* the keywords between [Number of Ports] and [Network Data] keep
 	   state for one another: their full cross product */
@@ -147,10 +148,11 @@ static void ts_apply(tsnpd_spell *s, int dim, int v)
 }
 
 enum { N_PERM, N_ENC, N_NAMECASE, N_BLANK, N_COMMENTS, N_SPACE, N_PFCASE,
-    NPD_NDIM };
-static const int npd_dimsize[NPD_NDIM] = { 5040, 3, 3, 3, 3, 3, 2 };
+    N_INTZERO, NPD_NDIM };
+static const int npd_dimsize[NPD_NDIM] = { 5040, 3, 3, 3, 3, 3, 2, 2 };
 static const char *npd_dimname[NPD_NDIM] = { "header-order", "encoding",
-    "name-case", "blank-lines", "comments", "spacing", "per-frequency-case" };
+    "name-case", "blank-lines", "comments", "spacing", "per-frequency-case",
+    "leading-zero-counts" };
 #define PERM_CHUNK 504
 
 static void npd_apply(tsnpd_npd_spell *s, int dim, int v)
@@ -163,6 +165,7 @@ static void npd_apply(tsnpd_npd_spell *s, int dim, int v)
     case N_COMMENTS: s->comments = v; break;
     case N_SPACE: s->space = v; break;
     case N_PFCASE: s->pfcase = v; break;
+    case N_INTZERO: s->intzero = v; break;
     default: break;
     }
 }
